@@ -598,9 +598,13 @@ func (m *Model) awaitedBySpawner(sp Spawn) bool {
 	}
 	f := sp.Fn
 	ok := false
-	eachInstr(f, func(in ssa.Instruction) {
+	// the wait may sit in a function the spawner's body was split into (one call site)
+	m.eachUnitInstr(f, func(in ssa.Instruction) {
 		sel, isSel := in.(*ssa.Select)
-		if !isSel || !sel.Blocking || !dominatesInstr(sp.At, in) {
+		if !isSel || !sel.Blocking {
+			return
+		}
+		if lifted := m.liftTo(f, in); lifted == nil || !dominatesInstr(sp.At, lifted) {
 			return
 		}
 		waitCase := -1
@@ -1025,6 +1029,73 @@ func (m *Model) unitGuards(unit *ssa.Function, in ssa.Instruction) []Lit {
 	return gs
 }
 
+
+// symInUnit: the symbolic form of a value of a unit function, with the parameters of the
+// single-call-site functions between it and the unit replaced by the call's arguments.
+func (m *Model) symInUnit(unit *ssa.Function, v ssa.Value) *Sym {
+	s := m.Sym.Of(v)
+	f := v.Parent()
+	for i := 0; i < 6 && f != nil && f != unit && f.Parent() == nil; i++ {
+		sites := m.callers[f]
+		if len(sites) != 1 {
+			break
+		}
+		args := sites[0].Instr.Common().Args
+		sub := map[string]*Sym{}
+		for j, p := range f.Params {
+			if j < len(args) {
+				sub["param:"+p.Name()] = m.Sym.Of(args[j])
+			}
+		}
+		s = substSym(s, sub)
+		f = sites[0].Caller
+	}
+	return s
+}
+
+// gatedInUnit is Gated for a value of a function the unit's body was split into: the parameters
+// of that function are replaced by the gated forms of the arguments at its single call site.
+func (m *Model) gatedInUnit(unit *ssa.Function, v ssa.Value) string {
+	f := v.Parent()
+	if f == nil || f == unit || f.Parent() != nil {
+		return m.Gated(v)
+	}
+	sites := m.callers[f]
+	if len(sites) != 1 {
+		return m.Gated(v)
+	}
+	args := sites[0].Instr.Common().Args
+	sub := map[string]*Sym{}
+	for j, p := range f.Params {
+		if j < len(args) {
+			sub["param:"+p.Name()] = &Sym{Op: "unknown", Name: m.Gated(args[j])}
+		}
+	}
+	return substSym(m.Sym.Of(v), sub).String()
+}
+
+// isWaitHelperResult: the literal tests the result of a wait helper - a loop-free library function
+// with one call site whose only blocking instruction is a select and which reaches no store
+// operation and no store of the claim; its result says which case of the select was taken.
+func (m *Model) isWaitHelperResult(l Lit) bool {
+	call, _, _, _, ok := m.resultTest(l)
+	if !ok {
+		return false
+	}
+	g := call.Call.StaticCallee()
+	if g == nil || !m.isLib(g) || len(m.callers[g]) != 1 || len(cfgLoops(g)) > 0 {
+		return false
+	}
+	nSel, nOther := 0, 0
+	eachInstr(g, func(in ssa.Instruction) {
+		if sel, isSel := in.(*ssa.Select); isSel && sel.Blocking {
+			nSel++
+		} else if m.isBlockingInstr(in) {
+			nOther++
+		}
+	})
+	return nSel == 1 && nOther == 0 && m.P.isPlumbingHelper(m, g)
+}
 
 // unitGuardsSubst is unitGuards with the parameters of the single-call-site functions replaced
 // by the arguments of their call sites, so that a test of a helper's parameter reads as a test of
